@@ -3,6 +3,7 @@
 package c03
 
 import (
+	"bytes"
 	"context"
 	"fmt"
 	iofs "io/fs"
@@ -30,9 +31,13 @@ import (
 func TestMain(m *testing.M) { ev.Main(m, "C03") }
 
 type Case struct {
-	Lines  []string `json:"lines"`
-	CRLF   bool     `json:"crlf,omitempty"`
-	NoEOL  bool     `json:"no_eol,omitempty"` // the last line of the rule file has no line terminator
+	Lines []string `json:"lines"`
+	CRLF  bool     `json:"crlf,omitempty"`
+	NoEOL bool     `json:"no_eol,omitempty"` // the last line of the rule file has no line terminator
+	// a comment line of 70000 bytes is inserted before rule number LongLine-1 (0 = none): too long for the line reader
+	LongLine int `json:"long_line,omitempty"`
+	// the same Packer first packs the directory while its rule file says "*" (everything ignored)
+	WarmUp bool     `json:"warm_up,omitempty"`
 	NoFile bool     `json:"no_file,omitempty"` // no .terraformignore at all: defaults only
 	Tree   fsx.Tree `json:"tree"`
 	Leg    string   `json:"leg"` // pack | off | deref | bundle
@@ -42,7 +47,15 @@ var subIgnore = ev.Register("ignore", checkIgnore).
 	Classifier("c03-builder-removes-dirs-wholesale", func(c Case) bool { return c.Leg == "bundle" })
 
 func (c Case) ruleText() string {
-	text := rgen.Render(c.Lines, c.CRLF)
+	lines := c.Lines
+	if c.LongLine > 0 {
+		at := c.LongLine - 1
+		if at > len(lines) {
+			at = len(lines)
+		}
+		lines = append(append(append([]string{}, lines[:at]...), "# "+strings.Repeat("x", 70000)), lines[at:]...)
+	}
+	text := rgen.Render(lines, c.CRLF)
 	if c.NoEOL {
 		text = strings.TrimSuffix(strings.TrimSuffix(text, "\n"), "\r")
 	}
@@ -91,7 +104,35 @@ func shippedByPack(c Case, r string) (map[string]byte, string, error) {
 		return nil, "", fmt.Errorf("harness: %v", err)
 	}
 	opts := pk.Opts{Ignore: c.Leg != "off", Deref: c.Leg == "deref"}
-	data, _, err, panicked := pk.PackBytes(opts, vars, src)
+	packer, perr := opts.Packer(vars)
+	if perr != nil {
+		return nil, derefDir, fmt.Errorf("harness: %v", perr)
+	}
+	if c.WarmUp {
+		// an earlier Pack of the same directory with the same Packer, under other rules
+		rf := filepath.Join(src, ".terraformignore")
+		orig, rerr := os.ReadFile(rf)
+		fi, _ := os.Lstat(rf)
+		os.WriteFile(rf, []byte("*\n"), 0644)
+		func() {
+			defer func() { recover() }()
+			packer.Pack(src, &bytes.Buffer{})
+		}()
+		if rerr == nil {
+			os.WriteFile(rf, orig, 0644)
+			os.Chtimes(rf, fi.ModTime(), fi.ModTime())
+		} else {
+			os.Remove(rf)
+		}
+	}
+	var buf bytes.Buffer
+	var err error
+	var panicked any
+	func() {
+		defer func() { panicked = recover() }()
+		_, err = packer.Pack(src, &buf)
+	}()
+	data := buf.Bytes()
 	if panicked != nil {
 		return nil, derefDir, fmt.Errorf("Pack panicked: %v", panicked)
 	}
@@ -146,6 +187,11 @@ func shippedByBundle(c Case, r string) (map[string]byte, error) {
 		var msgs []string
 		for _, d := range diags {
 			msgs = append(msgs, d.Description().Summary+": "+d.Description().Detail)
+		}
+		if c.LongLine > 0 && strings.Contains(strings.Join(msgs, " | "), "invalid .terraformignore file") {
+			// the builder refuses a rule file it cannot read instead of falling back: loud, nothing to compare
+			ev.Label("bundle-refuses-unreadable-rule-file")
+			return nil, errNotJudged
 		}
 		if strings.Contains(strings.Join(msgs, " | "), "filenames with newlines are not supported") {
 			// the package checksum (dirhash) refuses such names: the build fails loudly, nothing to compare
@@ -309,6 +355,10 @@ func genCase(leg string) func(t *rapid.T) Case {
 		}
 		c.CRLF = rapid.IntRange(0, 9).Draw(t, "crlf") == 0
 		c.NoEOL = rapid.IntRange(0, 4).Draw(t, "noeol") == 0
+		if rapid.IntRange(0, 24).Draw(t, "longline?") == 0 {
+			c.LongLine = 1 + rapid.IntRange(0, 3).Draw(t, "longlineat")
+		}
+		c.WarmUp = rapid.IntRange(0, 5).Draw(t, "warmup") == 0
 		c.NoFile = rapid.IntRange(0, 11).Draw(t, "nofile") == 0
 		c.Tree = tgen.Gen(t, tgen.Config{MaxNodes: 16, IgnoreNames: true, ExtraNames: append(append([]string{}, rgen.Names...), "line\nbreak", "x\ny.log"), Links: true, LinkPct: 10, LinkIntents: []string{"file", "dotslash", "updown"}})
 		// always some members of the built-in classes
